@@ -10,19 +10,22 @@ DEFAULT = "211"
 
 def validate_reference(cases, v):
     """nasm referee: returns list of bools (reference side validated)."""
-    nres = oracle.nasm_many([c["nasm"] for c in cases])
-    hexes = [nres[c["nasm"]][0] for c in cases]
+    nres = oracle.nasm_many([c["nasm"] for c in cases if not c.get("noref")])
+    hexes = [None if c.get("noref") else nres[c["nasm"]][0] for c in cases]
     oracle.decode_many([h for h in hexes if h])
     ok = []
     for c, h in zip(cases, hexes):
+        if c.get("noref"):
+            ok.append(True)
+            continue
         if h is None:
-            v.inconclusive.append({"text": c["text"], "nasm": c["nasm"], "why": "nasm rejects: %s" % nres[c["nasm"]][1]})
+            v.inconclusive.append({"fam": c.get("fam"), "text": c["text"], "nasm": c["nasm"], "why": "nasm rejects: %s" % nres[c["nasm"]][1]})
             ok.append(False)
             continue
         st, c1, c2, info = oracle.canon_bytes(h)
         alts = [c["exp"]] + c.get("alt", [])
         if st != "ok" or c1 not in alts or c2 not in alts:
-            v.inconclusive.append({"text": c["text"], "nasm": c["nasm"], "why": "reference mismatch", "nasm_bytes": h,
+            v.inconclusive.append({"fam": c.get("fam"), "text": c["text"], "nasm": c["nasm"], "why": "reference mismatch", "nasm_bytes": h,
                                    "status": st, "llvm": repr(c1), "bfd": repr(c2), "exp": repr(c["exp"]), "info": info})
             ok.append(False)
             continue
